@@ -93,6 +93,9 @@ class C18(Prop):
         for res in run.results:
             if res["op"]["op"] not in ("get", "refresh"):
                 continue
+            if res.get("step_limit"):
+                out.append(V("C18.never-returns", "%s kept polling the socket without letting time pass: the call cannot time out" % res["op"]["op"], flavour=run.plan["flavour"]))
+                continue
             is_refresh = res["op"]["op"] == "refresh"
             if is_refresh:
                 run.sim.count("probe.refresh-checked")
